@@ -1,6 +1,7 @@
 import Lean.Data.Json
 import Genq.Driver.Util
 import Genq.Model.Http
+import Genq.Model.HttpResp
 open Lean
 namespace Genq.Driver
 
@@ -28,10 +29,38 @@ def opHttp (op : String) (j : Json) : Except String Json := do
     return Json.mkObj [("out", hexStr r)]
   | _ => throw s!"unknown op {op}"
 
+def opResp (op : String) (j : Json) : Except String Json := do
+  match op with
+  | "resp.classify" =>
+    let r ← if (← getBool j "transport") then pure HttpResp.DoResult.transportErr else do
+      let b : HttpResp.BodyFacts := {
+        readAllFails := (← getBool j "readAllFails"), unmarshalOk := (← getBool j "unmarshalOk"),
+        unmarshalErrors := (← getBool j "unmarshalErrors"), decodeOk := (← getBool j "decodeOk"),
+        decodeErrors := (← getBool j "decodeErrors") }
+      pure (HttpResp.DoResult.resp (← getNat j "status") b)
+    let run := HttpResp.makeRequest r
+    let (o, st, c) : String × Nat × String := match run.outcome with
+      | .transport => ("transport", 0, "")
+      | .httpError s (.decoded e) => ("httpError", s, if e then "decoded+errors" else "decoded")
+      | .httpError s .rawText => ("httpError", s, "rawText")
+      | .httpError s .unreadableText => ("httpError", s, "unreadableText")
+      | .decodeError => ("decodeError", 0, "")
+      | .gqlErrors => ("gqlErrors", 0, "")
+      | .ok => ("ok", 0, "")
+    return Json.mkObj [("outcome", o), ("status", st), ("carry", c), ("closes", run.closes), ("dataDecoded", run.dataDecoded)]
+  | "resp.helper" =>
+    let g : Option Bool := match j.getObjVal? "getterFails" with
+      | .ok (.bool b) => some b
+      | _ => none
+    let h := HttpResp.helper g .transportErr
+    return Json.mkObj [("dataNonNil", h.dataNonNil), ("errUnchanged", h.errUnchanged), ("requests", h.requests)]
+  | _ => throw s!"unknown op {op}"
+
 def dispatch (j : Json) : Json :=
   let r : Except String Json := do
     let op ← getStr j "op"
     if op.startsWith "http." then opHttp op j
+    else if op.startsWith "resp." then opResp op j
     else throw s!"unknown op {op}"
   let idf := match j.getObjVal? "id" with | .ok v => [("id", v)] | .error _ => []
   match r with
